@@ -231,7 +231,7 @@ def _run(prop, tier):
         known_findings_reobserved=dict(agg["kf_seen"]),
         known_finding_notes=kf_notes,
         distinct_violation_signatures=len(seen_sig),
-        pool=meta,
+        pool=dict(meta, watchdog_case_ids=[f"{a}:{b}" for a, b, _ in agg["watchdog_cases"][:40]]),
         time_cap_s=cap,
         trusted_base=getattr(mod, "TRUSTED", []),
     )
